@@ -259,10 +259,68 @@ func ruleP07SliceGuard(p *Prog, r *Report) {
 					guarded = true
 				}
 			}
+			// any comparison that cannot hold for an empty list: len(x)-1 >= 0, len(x) > 0, …
+			if x, ok := nonEmptyFact(g); ok {
+				if gc, _ := callOf(x); gc != nil && mc != nil && gc == mc {
+					guarded = true
+				}
+			}
 		}
 		r.check(guarded, rule, fmt.Sprintf("slice-guard#%d", n), p.instrPos(in), "the last block is only split off when the remainder produced at least one block", "x[:len(x)-1] is evaluated although the remainder may have produced no block (an all-blank remainder panics)")
 	})
 	if n < 3 {
 		r.undecided(rule, "slice-guard", p.pos(work.Pos()), "expected the worker to split off the last value/block/error list (found %d such slices)", n)
 	}
+}
+
+// nonEmptyFact: the guard is an integer comparison in len(x) (plus constants) that is false for
+// len(x) == 0, so that it establishes a non-empty x. Returns x.
+func nonEmptyFact(g Guard) (ssa.Value, bool) {
+	bo, ok := g.Cond.(*ssa.BinOp)
+	if !ok {
+		return nil, false
+	}
+	switch bo.Op {
+	case token.EQL, token.NEQ, token.LSS, token.LEQ, token.GTR, token.GEQ:
+	default:
+		return nil, false
+	}
+	if !isIntType(bo.X.Type()) {
+		return nil, false
+	}
+	d := polySub(polyOf(bo.X), polyOf(bo.Y))
+	if len(d.Terms) != 1 {
+		return nil, false
+	}
+	var coef int64
+	var arg ssa.Value
+	for k, c := range d.Terms {
+		lc, isC := strip(d.leafV[k]).(*ssa.Call)
+		if !isC {
+			return nil, false
+		}
+		bi, isB := lc.Call.Value.(*ssa.Builtin)
+		if !isB || bi.Name() != "len" {
+			return nil, false
+		}
+		coef, arg = c, lc.Call.Args[0]
+	}
+	if coef == 0 {
+		return nil, false
+	}
+	// value of the left-hand side minus the right-hand side at len == 0
+	v := d.C
+	holds := map[token.Token]bool{token.EQL: v == 0, token.NEQ: v != 0, token.LSS: v < 0, token.LEQ: v <= 0, token.GTR: v > 0, token.GEQ: v >= 0}[bo.Op]
+	if !g.Pol {
+		holds = !holds
+	}
+	if holds {
+		return nil, false // true for the empty list: establishes nothing
+	}
+	// monotone in len for the inequalities; for == it pins a positive length, for != 0 likewise
+	if bo.Op == token.EQL && g.Pol {
+		// len*coef + c == 0 with c != 0: a specific non-zero length
+		return arg, true
+	}
+	return arg, true
 }
